@@ -220,13 +220,20 @@ static std::string run_steps(const std::vector<std::string>& w)
     std::string out;
     try
     {
-        nitro::options::parser p("app", "about");
+        auto p = std::make_unique<nitro::options::parser>("app", "about");
         std::set<std::string> have;
-        declare_into(p, cur, have);
+        declare_into(*p, cur, have);
         bool first = true;
         for (std::size_t k = 3; k < w.size(); k++)
         {
             const std::string& st = w[k];
+            if (st == "mc")
+            {
+                // move-construct the parser into a new object and destroy the old one
+                auto q = std::make_unique<nitro::options::parser>(std::move(*p));
+                p = std::move(q);
+                continue;
+            }
             if (st.size() < 2 || st[1] != ':') return "BADCASE";
             std::string arg = st.substr(2);
             if (st[0] == 'e') { envword = arg; apply_env(cur, envword, set_names); }
@@ -234,7 +241,22 @@ static std::string run_steps(const std::vector<std::string>& w)
             {
                 decl_t nd = read_decl(arg);
                 if (!nd.ok) return "BADCASE";
-                declare_into(p, nd, have);
+                declare_into(*p, nd, have);
+                cur = nd;
+                apply_env(cur, envword, set_names);
+            }
+            else if (st[0] == 'M')
+            {
+                // move-ASSIGN another, separately declared parser into the long-lived object
+                decl_t nd = read_decl(arg);
+                if (!nd.ok) return "BADCASE";
+                {
+                    nitro::options::parser other("app", "about");
+                    std::set<std::string> h2;
+                    declare_into(other, nd, h2);
+                    *p = std::move(other);
+                    have = h2;
+                }
                 cur = nd;
                 apply_env(cur, envword, set_names);
             }
@@ -243,7 +265,7 @@ static std::string run_steps(const std::vector<std::string>& w)
                 auto args = unwire_strs(arg);
                 if (!first) out += " | ";
                 first = false;
-                out += one_parse(p, cur, args);
+                out += one_parse(*p, cur, args);
                 nitro::options::parser fresh("app", "about");
                 std::set<std::string> none;
                 declare_into(fresh, cur, none);
